@@ -1,7 +1,17 @@
 from vdriver import Group
 META = {'level': 'other'}
 def replay(group, trace):
-    return None, 'no native replay for this group'
+    """the REAL KademliaTable: a contact refreshed with a shorter deadline and a new address; the node's own id registered"""
+    import sys, os
+    if group.replay != 'refresh':
+        return None, 'no native replay for this group'
+    root = os.path.dirname(os.path.dirname(os.path.abspath(__file__)))
+    sys.path.insert(0, os.path.join(root, 'replay'))
+    import replaylib as R
+    exe = R.build_full('C07.cpp', with_daemon=False)
+    rc, out = R.run(exe, [], timeout=60)
+    last = [l for l in out.strip().splitlines() if l.strip()][-1:] or ['']
+    return rc == 1, last[0][:400]
 
 
 def groups(tier):
@@ -13,7 +23,7 @@ def groups(tier):
                   clause='xor_distance is the bytewise XOR'),
             Group('distance.order', 'kad_index', 'C07/index.c', entry='h_order', unwind=33, kind='constant-unwind', bound='32 bytes',
                   clause='the order used on distances is the numeric order of 256-bit values'),
-            Group('bucket.upsert', 'kad_bucket', 'C07/bucket.c', entry='h_upsert', stub=['KademliaTable__bucket_index_for'], unwind=7,
+            Group('bucket.upsert', 'kad_bucket', 'C07/bucket.c', entry='h_upsert', unwind=7, extra=['--max-field-sensitivity-array-size', '300'],
                   unwind_by={'same_id': 33, 'cxx_memcmp': 33, 'h_upsert': 257, 'body': 33, 'str_from_n': 6, 'cxx_strlen': 6}, kind='bounded', backend=['sat', 'cadical'], timeout=600,
                   checks=['--bounds-check', '--pointer-check'], defines=['CXX_FIXED_STORAGE', 'CXX_VEC_CAP=6', 'B=3'], replay='refresh',
                   bound='a bucket holding at most 3 contacts (so the 16-contact limit is not reached); contact ids range over 256 values; three representative bucket indices',
